@@ -87,8 +87,12 @@ where
         // polled.
         let panic_guard = RunOnDrop::new(|| cancel::<F, S, T>(ptr));
 
+        #[cfg(feature = "verif-hooks")]
+        crate::verif_hooks::probe(crate::verif_hooks::site::TASK_RUN_BEFORE_POLL, ptr as usize);
         let poll_state = fut.poll(cx);
         mem::forget(panic_guard);
+        #[cfg(feature = "verif-hooks")]
+        crate::verif_hooks::probe(crate::verif_hooks::site::TASK_RUN_AFTER_POLL, ptr as usize);
 
         if let Poll::Ready(output) = poll_state {
             // Set a panic guard to close the task if the future or the output
@@ -130,6 +134,8 @@ where
                 (*c).output = ManuallyDrop::new(output);
             });
 
+            #[cfg(feature = "verif-hooks")]
+            crate::verif_hooks::probe(crate::verif_hooks::site::TASK_RUN_COMPLETED, ptr as usize);
             // Clear the `POLLING` flag to enter the `Completed` phase,
             // unless the task has concurrently transitioned to the
             // `Wind-down` phase or unless this `Runnable` is the last
